@@ -23,7 +23,7 @@ Section Kinds.
 
   Lemma vr_flags :
     vr_hex_z vr = true /\ vr_key_z vr = true /\ vr_sel_z vr = true /\ vr_hash_z vr = true /\
-    vr_uuid_canon vr = true /\ vr_year_pad vr = true /\ vr_ext_nonempty vr = true.
+    vr_uuid_canon vr = true /\ vr_year_pad vr = true /\ vr_ext_nonempty vr = true /\ vr_sock_int vr = true.
   Proof.
     pose proof Hvr as H. unfold variant_sound in H.
     repeat (apply andb_true_iff in H; let H2 := fresh "F" in destruct H as [H H2]). repeat split; auto.
@@ -42,7 +42,7 @@ Section Kinds.
     assert (p' = p) by (destruct p, p'; simpl in Hp; auto; discriminate).
     assert (c' = c) by (destruct c, c'; simpl in Hc; auto; discriminate). subst.
     simpl in H. destruct v; try discriminate. inv_bind H. inversion Hb; subst. split; auto.
-    destruct vr_flags as (_ & _ & _ & _ & _ & Hpad & _). rewrite Hpad in Ha.
+    destruct vr_flags as (_ & _ & _ & _ & _ & Hpad & _ & _). rewrite Hpad in Ha.
     pose proof (ts_clean_valid _ _ _ _ Ha) as Hvt. split; [simpl; eapply valid_timestamp_nonempty; eauto|].
     simpl. exact Hvt.
   Qed.
@@ -50,7 +50,7 @@ Section Kinds.
   (* every covered leaf kind *)
   Lemma leaf_sound k k' : leaf_proved k = true -> kind_refines k k' = true -> SK k k'.
   Proof.
-    destruct vr_flags as (Hhex & Hkey & Hsel & Hhash & Huuid & Hpad & Hext).
+    destruct vr_flags as (Hhex & Hkey & Hsel & Hhash & Huuid & Hpad & Hext & Hsock).
     intros Hl Hr. apply sound_at_kind.
     destruct k; simpl in Hl; try discriminate.
     - (* KString *) destruct k'; simpl in Hr; try discriminate; apply sound_stringy; auto.
